@@ -1,7 +1,8 @@
 #!/bin/bash
 # usage: seeded_run.sh <property id> <patch.diff> [tier] [--inplace]
 # Default: applies the patch in a scratch worktree of /repo (outside /repo and /verif) and points the check at it
-# through MPYC_REPO, so that other work against /repo is not disturbed.  With --inplace: applies the patch to /repo
+# through MPYC_REPO (generated tables, evidence and replays go to a scratch VERIF_ALT directory, not to /verif),
+# so that other work against /repo is not disturbed.  With --inplace: applies the patch to /repo
 # itself (git -C /repo apply), runs the check, and restores /repo (git -C /repo checkout -- .) straight afterwards.
 set -u
 P="$1"; PATCH="$(readlink -f "$2")"; TIER="${3:-quick}"; MODE="${4:-}"
@@ -16,8 +17,9 @@ else
   WT=$(mktemp -d /tmp/seedrun.XXXXXX)
   git -C /repo worktree add -q --detach "$WT" HEAD || exit 2
   ( cd "$WT" && ( git apply "$PATCH" 2>/dev/null || git apply -3 "$PATCH" ) ) || { echo "patch does not apply"; git -C /repo worktree remove --force "$WT"; exit 2; }
-  cd /verif; MPYC_REPO="$WT" ./check "$P" --tier "$TIER" > "$LOG" 2>&1; rc=$?
-  git -C /repo worktree remove --force "$WT" >/dev/null 2>&1; rm -rf "$WT"
+  ALT=$(mktemp -d /tmp/seedalt.XXXXXX)
+  cd /verif; MPYC_REPO="$WT" VERIF_ALT="$ALT" ./check "$P" --tier "$TIER" > "$LOG" 2>&1; rc=$?
+  git -C /repo worktree remove --force "$WT" >/dev/null 2>&1; rm -rf "$WT" "$ALT"
 fi
 grep -E "VIOLATION|KNOWN-FINDING|done:" "$LOG" | tail -8
 echo "check_exit=$rc log=$LOG"
